@@ -174,7 +174,7 @@ CHECKS = {
             'DESIGN.md 4 C07'),
     'C09': ('Lean 4 theorems over a dictionary-level model of to_dict / initialize_from_dict + correspondence',
             'Kernel-checked theorems: str(datetime) is re-read as the same datetime by get_date (with and without '
-            'fractional seconds, naive or with a whole-minute UTC offset of either sign as written for timezone-aware '
+            'fractional seconds, naive or with a UTC offset of whole seconds of either sign, +HH:MM or +HH:MM:SS, as written for timezone-aware '
             'columns); loading the dictionary of a well-formed constraint set gives back the same '
             'constraints (every kind, precision-qualified and date-valued bounds, any names / strings), with no warning '
             'or error, and the reloaded set serialises to the identical dictionary for any number of cycles; the same '
@@ -184,7 +184,7 @@ CHECKS = {
             'the code by differential runs; valid UTF-8 JSON, text identity over write/load cycles through real files, '
             'the three entry points and verdict preservation on generated frames are the oracle.',
             'Trusted: Lean kernel; json.dumps / json.loads are not modelled (contract loads(dumps x) = x); UTC offsets '
-            'with seconds stay text in code and model.',
+            'with a fraction of a second stay text in code and model.',
             'DESIGN.md 4 C09'),
     'C08': ('Lean 4 theorems over a model of the SQL text and the shared constraint model + model/implementation correspondence',
             'Kernel-checked theorems: (a) the SQL text built for SQLite - quoted column names, string literals and the '
@@ -302,12 +302,32 @@ def strip_findings(note):
     return re.sub(r'\s*(One|Two|Three|Four|Five|Six|\d+) [^.]*finding[^.]*\.(\s*(One|Two|Three|Four|Five|\w+) fixed\.)?', '', note).rstrip()
 
 
+# theorems added after the first texts were written (one sentence each)
+MORE = {
+    'C02': ' Also: the printed report (Model/Report.lean) shows each verdict by the mark its set assigns, in every mode.',
+    'C04': ' Also: the encoding files are read in (Model/Encoding.lean: UTF-8 unless given, PDF apart; an encoding given is used '
+           'whatever the files are called), constants and helper bodies regenerated from utils.py (tie_guess_encoding).',
+    'C06': ' Also: the file of detected records (Model/DetectOut.lean): every row written carries the position of its record, only '
+           'failing records are written without write_all, every failing record is, in input order.',
+    'C09': ' Also: creation metadata (Model/TddaMeta.lean): what is written after loading what was written is what was written, falsy '
+           'values included, over the METADATA_KEYS of the source (keys and both guards regenerated: tie_meta_guards).',
+    'C11': ' Also: the class body of the script template is well ordered (every class-level name is defined before it is read), over '
+           'the order regenerated from gentest_boilerplate.py (class_body_well_ordered, tie_script_template).',
+    'C15': ' Also: where the files go (Model/TmpDir.lean): the configured directory wins over TDDA_FAIL_DIR and the system directory, '
+           'every path add_failures writes is a direct child of it, and no two of one failure coincide.',
+    'C16': ' Also: the header rule of the dialect (Model/CsvwDialect.lean): no header row exactly when header is false / 0 or '
+           'headerRowCount is 0; expression, keys and test regenerated from csvw.py / pandasio.py (tie_header_rule).',
+    'C17': ' Also: which invocations the pandas front end takes (Model/Applicable.lean, extensions regenerated from pd/extension.py).',
+}
+
+
 def main():
     checks = []
     for pid in ALL:
         if pid not in CHECKS:
             continue
         tech, text, note, ref = CHECKS[pid]
+        text = text + MORE.get(pid, '')
         checks.append({
             'property_id': pid,
             'quick_cmd': '%s %s --tier quick' % (PY, pid),
